@@ -96,8 +96,9 @@ extern "C" {
     static environ: *const *const u8;
 }
 
-const SIM_ENV_VALUES: [&[u8]; 10] = [
+const SIM_ENV_VALUES: [&[u8]; 16] = [
     b"1\0", b"0\0", b"\0", b"full\0", b"42\0", b"/nonexistent\0", b"1700000000\0", b"kiki\0", b"C\0", b"true\0",
+    b"1.60\0", b"1.56.1\0", b"0.1.0\0", b"2018\0", b"false\0", b"en_US.UTF-8\0",
 ];
 
 /// std's `env::var` / `env::var_os` read variables through this symbol.
